@@ -1,5 +1,6 @@
 import NfcVerif.Model.CtlC03
 import NfcVerif.Model.SessC03
+import NfcVerif.Model.SectC03
 open NfcVerif NfcVerif.Tlv
 
 /-! line-protocol driver for the C03 additions: control TLV ranges, vendor format, protect -/
@@ -83,6 +84,59 @@ def doSeq (k : Klass) (m : Bytes) (ops : List Op) : String :=
   let steps := r.1.map fun o => s!"{showBool o.res} {showCmds3 o.cmds}"
   " ; ".intercalate steps ++ " | " ++ showRead3 k.cfg r.2.tag
 
+
+/-! ## `sect`: histories on a multi-sector Type 2 Tag with a fault per exchange (Model/SectC03) -/
+namespace SectDrv
+open NfcVerif.SectC03
+
+def rerrOf : Char → Option RErr
+  | 't' => some .timeout | 'x' => some .transmission | 'p' => some .protocol | 'n' => some .nak | _ => none
+
+def airOf (t : String) : Option Air :=
+  match t.toList with
+  | ['o'] => some .ok
+  | ['d'] => some .drop
+  | ['c', e] => (rerrOf e).map Air.corrupt
+  | ['l', e] => (rerrOf e).map Air.lost
+  | _ => none
+
+def scriptOf (s : String) : Option (List Air) :=
+  if s = "-" then some [] else (s.splitOn ",").mapM airOf
+
+def opOf (t : String) : Option SectC03.Op :=
+  match t.toList with
+  | ['y'] => some SectC03.Op.sync
+  | 'g' :: r => (String.ofList r).toNat?.map SectC03.Op.get
+  | 'S' :: r => (String.ofList r).toNat?.map SectC03.Op.sel
+  | 'R' :: r => (String.ofList r).toNat?.map SectC03.Op.rd
+  | 's' :: r => match (String.ofList r).splitOn ":" with
+    | [a, v] => match a.toNat?, v.toNat? with
+      | some a, some v => some (SectC03.Op.set a v) | _, _ => none
+    | _ => none
+  | 'W' :: r => match (String.ofList r).splitOn ":" with
+    | [p, d] => match p.toNat?, parseHex d with
+      | some p, some d => some (SectC03.Op.wr p d) | _, _ => none
+    | _ => none
+  | _ => none
+
+def showRes : SectC03.Res → String
+  | .unit => "ok"
+  | .nat n => s!"ok {n}"
+  | .bytes b => "ok " ++ toHex b
+  | .exc e => "exc " ++ e.name
+
+def showEv (e : SectC03.Ev) : String :=
+  let k := match e.kind with | .read => "r" | .write => "w" | .select => "s"
+  s!"{k}:{e.real}:{e.bel}:{e.page % 256}:{toHex e.data}"
+
+def doSect (m : Bytes) (script : List Air) (ops : List SectC03.Op) : String :=
+  let r := SectC03.run (SectC03.fresh m script) ops
+  let w := r.1.1
+  let tr := w.trace.reverse
+  "; ".intercalate (r.2.map showRes) ++ " | " ++ (if tr.isEmpty then "-" else ",".intercalate (tr.map showEv))
+    ++ s!" | {w.tag.sector} {w.cur} {if w.tag.pend then 1 else 0} {if w.amb then 1 else 0} {r.1.2.fromTag.length}"
+end SectDrv
+
 def handle (line : String) : String :=
   match line.splitOn " " with
   | ["ctl", k, t, d0, d2] => match t.toNat?, d0.toNat?, d2.toNat? with
@@ -102,6 +156,9 @@ def handle (line : String) : String :=
     | _, _, _ => "bad-op"
   | ["seq", k, mh, ops] => match klassOf k, parseHex mh, (ops.splitOn ",").mapM parseOp with
     | some k, some m, some ops => doSeq k m ops
+    | _, _, _ => "bad-op"
+  | ["sect", mh, sc, ops] => match parseHex mh, SectDrv.scriptOf sc, (ops.splitOn ",").mapM SectDrv.opOf with
+    | some m, some sc, some ops => SectDrv.doSect m sc ops
     | _, _, _ => "bad-op"
   | ["pt2", mh] => match parseHex mh with
     | some m => let o := protectT2 m; showOp o (toHex (apply m o.cmds))
